@@ -21,8 +21,10 @@
    (A4) *_validation: the validation step of `rm`, `restore`, `restore
         --staged` and `add`, as an EQUATION on the command (valid: the command
         is its processing loop; not valid: [Err], state untouched), and who
-        passes it.  One statement of the task is FALSE for `add` (a tracked
-        directory that is gone from disk is refused): see [add_dir_gone_*]. *)
+        passes it.  (Before the repair of `add`, a tracked directory that is
+        gone from disk was refused by `add` although `rm` and `restore` took
+        the same name; now it is accepted and every tracked path beneath it is
+        unstaged: see [add_dir_gone_accepted].) *)
 From Coq Require Import Strings.String Strings.Byte.
 From Coq Require Import List Bool NArith ZArith Arith Lia Sorted.
 From Goit Require Import Bytes Sha1 Obj Tree Index Regex GoRegex Commit Reflog Config Ignore World Repo.
@@ -487,8 +489,15 @@ Qed.
 
 (* ---------- add ---------- *)
 (* what `add` asks of a name: it exists on disk (file or directory), or it is
-   a tracked path (whose file is gone: the deletion gets staged) *)
-Definition add_valid (w : world) (a : bytes) : bool := exists_on_disk w a || tracked w a.
+   a tracked path (whose file is gone: the deletion gets staged), or it is a
+   tracked directory (which is gone: the deletion of every tracked path beneath
+   it gets staged) *)
+Definition add_valid (w : world) (a : bytes) : bool :=
+  exists_on_disk w a || tracked w a || is_dir (idx_of w) a.
+
+(* that is: on disk, or what `rm` and `restore` ask *)
+Lemma add_valid_rm_valid : forall w a, add_valid w a = exists_on_disk w a || rm_valid w a.
+Proof. intros w a. unfold add_valid, rm_valid. rewrite orb_assoc. reflexivity. Qed.
 
 Theorem cmd_add_validation : forall c args s,
   cmd_add c args s =
@@ -540,9 +549,8 @@ Proof. intros w a Hr Hc Hs. apply rm_valid_iff_canonical. apply (reach_canonical
    - `rm a` and `restore a` pass validation, unconditionally;
    - `restore --staged a` passes validation as soon as HEAD's snapshot loads
      (the command needs a commit on the current branch whatever the name);
-   - `add a` passes validation when [a] is a tracked PATH, or exists on disk.
-     (A tracked DIRECTORY that no longer exists on disk is refused by `add`:
-     [add_dir_gone_refused] below.) *)
+   - `add a` passes validation, unconditionally as well (a tracked DIRECTORY
+     that no longer exists on disk included: [add_dir_gone_accepted] below). *)
 Theorem named_tracked_is_never_refused_at_validation : forall w a,
   Reachable w -> w_coll w = false -> SmallStore (w_objs w) ->
   names_tracked w a ->
@@ -551,8 +559,7 @@ Theorem named_tracked_is_never_refused_at_validation : forall w a,
     (forall c, cmd_restore c false [a] s = (iterM restore_wd (wd_targets w [a]) ;;; ret []) s) /\
     (forall c ns, am_mem (w_refs w) (w_head w) = true -> head_nodes c w = Some ns ->
        cmd_restore c true [a] s = (iterM (restore_index ns) (idx_targets w ns [a]) ;;; ret []) s) /\
-    (forall c, listed w a \/ exists_on_disk w a = true ->
-       cmd_add c [a] s = (iterM (add_arg c) [a] ;;; ret []) s).
+    (forall c, cmd_add c [a] s = (iterM (add_arg c) [a] ;;; ret []) s).
 Proof.
   intros w a Hr Hc Hs Hn s Hw. pose proof (reach_canonical w Hr Hc Hs) as Hcan.
   pose proof (proj2 (rm_valid_iff_canonical w a Hcan) Hn) as Hv.
@@ -561,12 +568,8 @@ Proof.
   - intro c. rewrite cmd_restore_wd_validation, Hw. cbn [forallb is_nil negb andb]. rewrite Hv. reflexivity.
   - intros c ns Hb Hh. rewrite cmd_restore_idx_validation, Hw, Hb, Hh. cbn [forallb is_nil negb andb].
     unfold restore_idx_valid. rewrite Hv. reflexivity.
-  - intros c Hor. rewrite cmd_add_validation, Hw. cbn [forallb is_nil negb andb].
-    assert (Ha : add_valid w a = true).
-    { unfold add_valid. destruct Hor as [Hl|Hd].
-      - rewrite (proj2 (tracked_listed_canonical w a Hcan) Hl). apply orb_true_r.
-      - rewrite Hd. reflexivity. }
-    rewrite Ha. reflexivity.
+  - intros c. rewrite cmd_add_validation, Hw. cbn [forallb is_nil negb andb].
+    rewrite add_valid_rm_valid, Hv, orb_true_r. reflexivity.
 Qed.
 
 (* for `restore --staged`, HEAD's snapshot may supply the name as well *)
@@ -603,11 +606,7 @@ Proof.
     destruct (head_nodes c w) as [ns|]; [|reflexivity].
     destruct (Hh ns eq_refl) as [Hf Hd]. cbn [forallb]. unfold restore_idx_valid. rewrite Hv, Hf, Hd. reflexivity.
   - intros c Hd. rewrite cmd_add_validation, Hw. cbn [forallb is_nil negb andb].
-    assert (Ha : add_valid w a = false).
-    { unfold add_valid. rewrite Hd. cbn [orb].
-      destruct (tracked w a) eqn:Ht; [|reflexivity]. exfalso. apply Hnl.
-      apply (tracked_listed_canonical w a Hcan). exact Ht. }
-    rewrite Ha. reflexivity.
+    rewrite add_valid_rm_valid, Hd, Hv. reflexivity.
 Qed.
 
 (* the same at the level of one step of a history: nothing at all happens *)
@@ -777,13 +776,13 @@ Example af_staged_from_head :
   step (ACmd af_env (CRestore true [str "x"])) af_w2 = (af_w2, OErr, []).
 Proof. vm_compute. repeat split. Qed.
 
-(* ---------- FALSE as first stated: `add <tracked directory>` ---------- *)
-(* The task statement "for a tracked path or tracked directory [a] the
-   validation of [cmd_add c [a]] passes" does not hold for a tracked DIRECTORY
-   that no longer exists on disk: `add` validates with
-   [exists_on_disk w a || tracked w a] ([tracked] = exact path look-up, never
-   the directory look-up), so the name is refused with "did not match" although
-   tracked paths lie beneath it — whereas `rm d` and `restore d` accept it.
+(* ---------- `add <tracked directory that is gone>` ---------- *)
+(* Before the repair `add` validated with [exists_on_disk w a || tracked w a]
+   ([tracked] = exact path look-up, never the directory look-up), so the name of
+   a tracked directory that no longer exists on disk was refused with "did not
+   match" although tracked paths lie beneath it — whereas `rm d` and `restore d`
+   accepted it.  Now the directory look-up is part of the validation, and the
+   command unstages every tracked path beneath the name.
    Exact input: track d/x (and others); remove directory d from disk; `add d`. *)
 Definition af_w3 : world := Eval vm_compute in run [AEdit (URmTree (str "d"))] af_w.
 
@@ -794,30 +793,52 @@ Proof.
   - vm_compute. reflexivity.
 Qed.
 
-Example add_dir_gone_refused :
+Example add_dir_gone_accepted :
   (* [d] is a tracked directory: d/x is tracked and lies beneath it *)
   is_dir (idx_of af_w3) (str "d") = true /\ tracked af_w3 (str "d/x") = true /\
-  (* it is gone from disk *)
-  exists_on_disk af_w3 (str "d") = false /\
-  (* `add d` is refused, nothing happens: the deletion of d/x cannot be staged this way *)
-  step (ACmd af_env (CAdd [str "d"])) af_w3 = (af_w3, OErr, []) /\
-  (* `add d/x` (the tracked PATH) is accepted and stages the deletion *)
+  (* it is gone from disk, and is not itself a tracked path *)
+  exists_on_disk af_w3 (str "d") = false /\ tracked af_w3 (str "d") = false /\
+  (* `add d` is accepted and stages the deletion of d/x, the one tracked path beneath d:
+     one index write; ad/x, d-old and d.c/y stay staged; work tree and objects untouched *)
+  (let '(w4, o, tr) := step (ACmd af_env (CAdd [str "d"])) af_w3 in
+   o = OOk [] /\ paths (idx_of w4) = [str "ad/x"; str "d-old"; str "d.c/y"] /\
+   length tr = 1 /\ forallb is_idx tr = true /\
+   w_files w4 = w_files af_w3 /\ w_dirs w4 = w_dirs af_w3 /\ w_objs w4 = w_objs af_w3) /\
+  (* `add d/x` (the tracked PATH) does the same *)
   (let '(w4, o, tr) := step (ACmd af_env (CAdd [str "d/x"])) af_w3 in
    o = OOk [] /\ paths (idx_of w4) = [str "ad/x"; str "d-old"; str "d.c/y"]) /\
   (* `rm d` and `restore d` accept the same name on the same world *)
   (let '(w4, o, tr) := step (ACmd af_env (CRm [str "d"])) af_w3 in
    o = OOk [] /\ paths (idx_of w4) = [str "ad/x"; str "d-old"; str "d.c/y"]) /\
   (let '(w4, o, tr) := step (ACmd af_env (CRestore false [str "d"])) af_w3 in
-   o = OOk [] /\ map fst (w_files w4) = [str "ad/x"; str "d-old"; str "d.c/y"; str "d/x"]).
+   o = OOk [] /\ map fst (w_files w4) = [str "ad/x"; str "d-old"; str "d.c/y"; str "d/x"]) /\
+  (* the look-alikes are still refused: nothing is beneath "d-" *)
+  step (ACmd af_env (CAdd [str "d-"])) af_w3 = (af_w3, OErr, []).
 Proof. vm_compute. repeat split. Qed.
 
-(* the corrected statement for `add`, as an equivalence on every reachable world *)
+(* the general theorem applies to that world *)
+Example af_A4_add_dir_gone : forall s, ms_w s = af_w3 ->
+  forall c, cmd_add c [str "d"] s = (iterM (add_arg c) [str "d"] ;;; ret []) s.
+Proof.
+  intros s Hs.
+  assert (Hn : names_tracked af_w3 (str "d")).
+  { right. exists (str "d/x"). split; [vm_compute; tauto | vm_compute; reflexivity]. }
+  assert (Hcoll : w_coll af_w3 = false) by (vm_compute; reflexivity).
+  assert (Hsm : SmallStore (w_objs af_w3)) by (apply small_store_b; vm_compute; reflexivity).
+  destruct (named_tracked_is_never_refused_at_validation af_w3 (str "d") af_w3_reachable Hcoll Hsm
+              Hn s Hs) as (_ & _ & _ & H4).
+  exact H4.
+Qed.
+
+(* who passes the validation of `add`, as an equivalence on every reachable world:
+   a name on disk, or the name of a tracked path or of a tracked directory *)
 Theorem add_valid_iff : forall w a,
   Reachable w -> w_coll w = false -> SmallStore (w_objs w) ->
-  (add_valid w a = true <-> exists_on_disk w a = true \/ listed w a).
+  (add_valid w a = true <-> exists_on_disk w a = true \/ names_tracked w a).
 Proof.
   intros w a Hr Hc Hs. pose proof (reach_canonical w Hr Hc Hs) as Hcan.
-  unfold add_valid. rewrite orb_true_iff, (tracked_listed_canonical w a Hcan). reflexivity.
+  rewrite add_valid_rm_valid, orb_true_iff. unfold names_tracked.
+  rewrite (rm_valid_iff_canonical w a Hcan). reflexivity.
 Qed.
 
 (* ====================================================================== *)
@@ -847,7 +868,8 @@ Print Assumptions unmatched_name_is_refused.
 Print Assumptions unmatched_name_step_refused.
 Print Assumptions af_rm_d.
 Print Assumptions af_staged_from_head.
-Print Assumptions add_dir_gone_refused.
+Print Assumptions add_dir_gone_accepted.
+Print Assumptions af_A4_add_dir_gone.
 Print Assumptions af_A1.
 Print Assumptions af_A2.
 Print Assumptions af_A3.
